@@ -38,6 +38,8 @@ func main() {
 		os.Exit(runExtractReplay(os.Args[2:]))
 	case "tree-replay":
 		os.Exit(runTreeReplay(os.Args[2:]))
+	case "cli-replay":
+		os.Exit(runCliReplay(os.Args[2:]))
 	case "hashfuzz":
 		os.Exit(runHashFuzz(os.Args[2:]))
 	case "reader-replay":
